@@ -15,7 +15,7 @@ EXPLANATION = (
 TRUSTED = _c02.TRUSTED
 ASSUMPTIONS = ["inputs are canonical raw mpf tuples (this same invariant, discharged inductively by checking every producer)",
                "base exponents within +-2^30"]
-BUDGET = {'quick': dict(ob_deadline_s=100, total_s=160), 'thorough': dict(ob_deadline_s=900, total_s=2400)}
+BUDGET = {'quick': dict(ob_deadline_s=100, total_s=160), 'thorough': dict(ob_deadline_s=600, total_s=1500)}
 BOUNDS = {'quick': 'the shape grids of C02 and C06 (all producers there) with the canonical-form assertion, plus C05 equality shapes and pickle encodings'}
 
 
